@@ -181,6 +181,7 @@ struct Subject<A: Aggregator<S, 16>, const S: usize> {
     budget: u8,
     corrupt_all_bytes: bool,
     not_judged: std::sync::atomic::AtomicU64,
+    reevaluations: std::sync::atomic::AtomicU64,
 }
 
 #[derive(Clone, Debug, Hash, PartialEq, Eq)]
@@ -203,6 +204,8 @@ struct St {
     /// party processed an altered-but-decodable payload (or a message derived from one): it must
     /// never release an output share (the VDAF detects the alteration in a later step)
     tainted: [bool; 2],
+    /// every continuation ever persisted: (party, encoding, party state it evaluated to, outbound message)
+    conts: Vec<(u8, Vec<u8>, Party, Option<Vec<u8>>)>,
     violation: Option<String>,
 }
 
@@ -227,6 +230,8 @@ enum Act {
     LeaderInit,
     Deliver(u8, Src),
     Evaluate(u8),
+    /// reload and evaluate again a continuation persisted earlier, at any later point of the exchange
+    ReEvaluate(usize),
 }
 
 struct Pp<A: Aggregator<S, 16>, const S: usize>(Arc<Subject<A, S>>);
@@ -378,7 +383,7 @@ where
     type Action = Act;
 
     fn init_states(&self) -> Vec<St> {
-        vec![St { parties: [Party::Start, Party::Start], pending: [None, None], log: vec![], faults: 0, steps: 0, tainted: [false, false], violation: None }]
+        vec![St { parties: [Party::Start, Party::Start], pending: [None, None], log: vec![], faults: 0, steps: 0, tainted: [false, false], conts: vec![], violation: None }]
     }
 
     fn actions(&self, st: &St, out: &mut Vec<Act>) {
@@ -388,6 +393,9 @@ where
         if st.parties[0] == Party::Start {
             out.push(Act::LeaderInit);
             return;
+        }
+        for i in 0..st.conts.len() {
+            out.push(Act::ReEvaluate(i));
         }
         for p in 0..2u8 {
             match &st.parties[p as usize] {
@@ -430,6 +438,18 @@ where
     fn next_state(&self, st: &St, act: Act) -> Option<St> {
         let s = &self.0;
         let mut n = st.clone();
+        if let Act::ReEvaluate(i) = act {
+            // a self-loop unless the stored continuation behaves differently now
+            let (p, enc, party, msg) = &st.conts[i];
+            s.reevaluations.fetch_add(1, std::sync::atomic::Ordering::Relaxed);
+            match self.evaluate(*p, enc) {
+                Ok((party2, msg2)) if party2 == *party && msg2 == *msg => return None,
+                Ok(_) => n.violation = Some(format!("party {p}: a continuation persisted earlier evaluates to a different state/message when reloaded later in the exchange")),
+                Err(e) if st.tainted[*p as usize] && e.starts_with("evaluate failed") => return None,
+                Err(e) => n.violation = Some(format!("party {p}: a continuation persisted earlier fails when reloaded later: {e}")),
+            }
+            return Some(n);
+        }
         n.steps += 1;
         match act {
             Act::LeaderInit => {
@@ -448,6 +468,7 @@ where
                 }
                 Some(n)
             }
+            Act::ReEvaluate(_) => unreachable!("handled above"),
             Act::Evaluate(p) => {
                 let Party::HasCont(enc) = &st.parties[p as usize] else { return None };
                 match self.evaluate(p, enc) {
@@ -455,6 +476,7 @@ where
                         if st.tainted[p as usize] && matches!(party, Party::Finished(_)) {
                             n.violation = Some(format!("party {p} released an output share although it had processed an altered message"));
                         }
+                        n.conts.push((p, enc.clone(), party.clone(), msg.clone()));
                         n.parties[p as usize] = party;
                         if let Some(mb) = msg {
                             let to = 1 - p;
@@ -693,6 +715,8 @@ where
         }
         run.distinct(fnv(name.as_bytes()));
     }
+    run.count("later_reevaluations_of_stored_continuations", subj.reevaluations.load(std::sync::atomic::Ordering::Relaxed) / 3);
+    run.count("evaluations", subj.reevaluations.load(std::sync::atomic::Ordering::Relaxed) / 3);
     run.count("altered_decodable_payloads_accepted_not_judged_here", subj.not_judged.load(std::sync::atomic::Ordering::Relaxed) / 3);
     if counts[0] != counts[1] {
         panic!("{name}: state counts differ between two runs of the checker: {:?} (non-deterministic model)", counts);
@@ -735,14 +759,14 @@ where
 
 fn main() {
     let run = Run::from_args("C12", Level::ModelChecking);
-    run.rule("stateright BFS over the ping-pong model: state = (leader, helper) each Start | Waiting(enc verifier state) | HasContinuation(enc continuation) | Finished(enc output), the message in flight, the log of all messages, faults used; actions = leader_initialized, Deliver(correct pending | any earlier message | pending re-typed to another variant | byte flip / truncate / extend / empty | one inner opaque field of the well-formed pending message lengthened, shortened, emptied or doubled), Evaluate(stored continuation, decoded and evaluated 3x); every transition calls the real routines on values reloaded from their encodings; fault budget = deviation bound. distinct = subjects (VDAF x rounds x budget)");
+    run.rule("stateright BFS over the ping-pong model: state = (leader, helper) each Start | Waiting(enc verifier state) | HasContinuation(enc continuation) | Finished(enc output), the message in flight, the log of all messages, faults used; actions = leader_initialized, Deliver(correct pending | any earlier message | pending re-typed to another variant | byte flip / truncate / extend / empty | one inner opaque field of the well-formed pending message lengthened, shortened, emptied or doubled), Evaluate(stored continuation, decoded and evaluated 3x), ReEvaluate(any continuation persisted earlier, at every later state); every transition calls the real routines on values reloaded from their encodings; fault budget = deviation bound. distinct = subjects (VDAF x rounds x budget)");
     run.assume("two parties (the topology's definition); the dummy VDAF's empty messages make replays indistinguishable, so only kind/undecodable faults are judged for it");
     let q = run.quick();
     let budget = if q { 2 } else { 3 };
     let tape = Tape::Seeded(run.seed ^ 0xC12);
     // (i) strict instrumented VDAF, 1..6 rounds
     for rounds in 1..=6u8 {
-        let subj = Subject { name: format!("Strict(rounds={rounds})"), vdaf: Strict { rounds }, vk: [7u8; 32], ctx: b"c12".to_vec(), param: SParam { p: 9 }, nonce: [1u8; 16], ps: (), shares: vec![SInput { agg_id: 0, value: 11 }, SInput { agg_id: 1, value: 22 }], rounds: rounds as usize, strict: true, strict_content: true, budget: if q { 2 } else { 3 }, corrupt_all_bytes: true, not_judged: Default::default() };
+        let subj = Subject { name: format!("Strict(rounds={rounds})"), vdaf: Strict { rounds }, vk: [7u8; 32], ctx: b"c12".to_vec(), param: SParam { p: 9 }, nonce: [1u8; 16], ps: (), shares: vec![SInput { agg_id: 0, value: 11 }, SInput { agg_id: 1, value: 22 }], rounds: rounds as usize, strict: true, strict_content: true, budget: if q { 2 } else { 3 }, corrupt_all_bytes: true, not_judged: Default::default(), reevaluations: Default::default() };
         check(&run, subj);
     }
     // (ii) Prio3: Count, Sum, Histogram / SumVec (joint randomness), multi-proof SumVec over Field64
@@ -754,21 +778,21 @@ fn main() {
         let vdaf = Prio3::new_count(2).unwrap();
         for m in [true, false] {
             let (ps, shares) = vdaf.shard_with_random(b"c12", &m, &nonce, &tape.bytes(2, 64)).unwrap();
-            check(&run, Subject { name: format!("Prio3Count({m}){sfx}"), vdaf: vdaf.clone(), vk: tape.array(3), ctx: b"c12".to_vec(), param: (), nonce, ps, shares, rounds: 1, strict: true, strict_content: false, budget, corrupt_all_bytes: true, not_judged: Default::default() });
+            check(&run, Subject { name: format!("Prio3Count({m}){sfx}"), vdaf: vdaf.clone(), vk: tape.array(3), ctx: b"c12".to_vec(), param: (), nonce, ps, shares, rounds: 1, strict: true, strict_content: false, budget, corrupt_all_bytes: true, not_judged: Default::default(), reevaluations: Default::default() });
         }
         let vdaf = Prio3::new_sum(2, 1000).unwrap();
         let (ps, shares) = vdaf.shard_with_random(b"c12", &777u64, &nonce, &tape.bytes(6, 64)).unwrap();
-        check(&run, Subject { name: format!("Prio3Sum{sfx}"), vdaf, vk: tape.array(7), ctx: b"c12".to_vec(), param: (), nonce, ps, shares, rounds: 1, strict: true, strict_content: false, budget, corrupt_all_bytes: !q, not_judged: Default::default() });
+        check(&run, Subject { name: format!("Prio3Sum{sfx}"), vdaf, vk: tape.array(7), ctx: b"c12".to_vec(), param: (), nonce, ps, shares, rounds: 1, strict: true, strict_content: false, budget, corrupt_all_bytes: !q, not_judged: Default::default(), reevaluations: Default::default() });
         let vdaf = Prio3::new_histogram(2, 4, 2).unwrap();
         let (ps, shares) = vdaf.shard_with_random(b"c12", &2usize, &nonce, &tape.bytes(4, 128)).unwrap();
-        check(&run, Subject { name: format!("Prio3Histogram{sfx}"), vdaf, vk: tape.array(5), ctx: b"c12".to_vec(), param: (), nonce, ps, shares, rounds: 1, strict: true, strict_content: false, budget, corrupt_all_bytes: true, not_judged: Default::default() });
+        check(&run, Subject { name: format!("Prio3Histogram{sfx}"), vdaf, vk: tape.array(5), ctx: b"c12".to_vec(), param: (), nonce, ps, shares, rounds: 1, strict: true, strict_content: false, budget, corrupt_all_bytes: true, not_judged: Default::default(), reevaluations: Default::default() });
         let vdaf = Prio3::new_sum_vec(2, 2, 3, 2).unwrap();
         let (ps, shares) = vdaf.shard_with_random(b"c12", &vec![1u128, 2, 0], &nonce, &tape.bytes(8, 128)).unwrap();
-        check(&run, Subject { name: format!("Prio3SumVec{sfx}"), vdaf, vk: tape.array(9), ctx: b"c12".to_vec(), param: (), nonce, ps, shares, rounds: 1, strict: true, strict_content: false, budget, corrupt_all_bytes: !q, not_judged: Default::default() });
+        check(&run, Subject { name: format!("Prio3SumVec{sfx}"), vdaf, vk: tape.array(9), ctx: b"c12".to_vec(), param: (), nonce, ps, shares, rounds: 1, strict: true, strict_content: false, budget, corrupt_all_bytes: !q, not_judged: Default::default(), reevaluations: Default::default() });
         let typ: SumVec<Field64, ParallelSum<Field64, Mul>> = SumVec::new(1, 4, 2).unwrap();
         let vdaf: Prio3<_, XofTurboShake128, 32> = Prio3::new(2, 3, 0xFFFF_1203, typ).unwrap();
         let (ps, shares) = vdaf.shard_with_random(b"c12", &vec![1u64, 0, 1, 1], &nonce, &tape.bytes(10, 128)).unwrap();
-        check(&run, Subject { name: format!("Prio3SumVecField64(proofs=3){sfx}"), vdaf, vk: tape.array(14), ctx: b"c12".to_vec(), param: (), nonce, ps, shares, rounds: 1, strict: true, strict_content: false, budget, corrupt_all_bytes: !q, not_judged: Default::default() });
+        check(&run, Subject { name: format!("Prio3SumVecField64(proofs=3){sfx}"), vdaf, vk: tape.array(14), ctx: b"c12".to_vec(), param: (), nonce, ps, shares, rounds: 1, strict: true, strict_content: false, budget, corrupt_all_bytes: !q, not_judged: Default::default(), reevaluations: Default::default() });
     }
     // (iii) Poplar1, every level of bits 1..3 and selected levels of longer inputs (2 rounds)
     let mut pl: Vec<(usize, usize)> = vec![(1, 0), (2, 0), (2, 1), (3, 0), (3, 1), (3, 2), (9, 7), (9, 8)];
@@ -787,12 +811,12 @@ fn main() {
             std::mem::swap(&mut on, &mut sib);
         }
         let param = Poplar1AggregationParam::try_from_prefixes(vec![IdpfInput::from_bools(&on), IdpfInput::from_bools(&sib)]).unwrap();
-        check(&run, Subject { name: format!("Poplar1(bits={bits},level={level})"), vdaf, vk: tape.array(13), ctx: b"c12".to_vec(), param, nonce, ps, shares, rounds: 2, strict: true, strict_content: false, budget, corrupt_all_bytes: bits <= 3 || !q, not_judged: Default::default() });
+        check(&run, Subject { name: format!("Poplar1(bits={bits},level={level})"), vdaf, vk: tape.array(13), ctx: b"c12".to_vec(), param, nonce, ps, shares, rounds: 2, strict: true, strict_content: false, budget, corrupt_all_bytes: bits <= 3 || !q, not_judged: Default::default(), reevaluations: Default::default() });
     }
     // (iv) the crate's dummy VDAF, 1..5 rounds
     for rounds in 1..=5u32 {
         let vdaf = prio::vdaf::dummy::Vdaf::new(rounds);
-        check(&run, Subject { name: format!("Dummy(rounds={rounds})"), vdaf, vk: [], ctx: b"c12".to_vec(), param: prio::vdaf::dummy::AggregationParam(3), nonce: [0u8; 16], ps: (), shares: vec![prio::vdaf::dummy::InputShare(5), prio::vdaf::dummy::InputShare(9)], rounds: rounds as usize, strict: false, strict_content: true, budget, corrupt_all_bytes: false, not_judged: Default::default() });
+        check(&run, Subject { name: format!("Dummy(rounds={rounds})"), vdaf, vk: [], ctx: b"c12".to_vec(), param: prio::vdaf::dummy::AggregationParam(3), nonce: [0u8; 16], ps: (), shares: vec![prio::vdaf::dummy::InputShare(5), prio::vdaf::dummy::InputShare(9)], rounds: rounds as usize, strict: false, strict_content: true, budget, corrupt_all_bytes: false, not_judged: Default::default(), reevaluations: Default::default() });
     }
     run.exhaustive(true);
     run.finish();
